@@ -719,7 +719,9 @@ class InterpProxy(object):
         xs = [xs[i] for i in order]
         ys = [ys[i] for i in order]
         if len(xs) < 2:
-            real_interp.interp1d(np.zeros(len(xs)), np.zeros(len(xs)))
+            # scipy accepts a single point for the linear kind and evaluates 0/0 -> nan everywhere
+            real_interp.interp1d(np.zeros(len(xs)), np.zeros(len(xs)), kind=kind, bounds_error=bounds_error, fill_value=fill_value)
+            return lambda t: obj_full(np.asarray(t).shape, float('nan'))
         extrap = isinstance(fill_value, str) and fill_value == 'extrapolate'
         if not extrap:
             if bounds_error is None or bounds_error:
